@@ -117,6 +117,23 @@ fn scenarios(seed: u64, tier: Tier) -> Vec<Scenario> {
             seed: simcore::prng::hash_label(seed, "c09-scenario-symlink", k),
         });
         k += 1;
+        // ... or a symbolic link to a previous container that lives in another directory
+        // (`pub/current.jbk -> ../store/v1.jbk`): the packs of the new container belong beside the
+        // name the caller gave, which is where a reader that opens that name looks for them
+        if packaging != Packaging::BasicOne || tier == Tier::Thorough {
+            out.push(Scenario {
+                id: format!("{}-none-n1-old-symlinked-elsewhere", packaging.name()),
+                packaging,
+                comp: Comp::None,
+                n: 1,
+                preexisting: true,
+                sim_source: false,
+                extra: false,
+                old_packaging: None,
+                seed: simcore::prng::hash_label(seed, "c09-scenario-symlink-elsewhere", k),
+            });
+            k += 1;
+        }
         // input-stream faults
         out.push(Scenario {
             id: format!("{}-simsrc", packaging.name()),
@@ -230,6 +247,11 @@ enum Inject {
     /// creator may refuse that (however it does); it must not publish a container whose extra pack
     /// cannot be found
     RelativeExtraPath,
+    /// (scenarios with an extra content pack) the extra pack lies in a sub-directory whose name
+    /// makes its location relative to the destination longer than the 213 bytes a pack
+    /// description holds. The creator may refuse; it must not publish a container whose recorded
+    /// location does not lead to the pack
+    DeepExtraPath,
 }
 
 impl Inject {
@@ -255,6 +277,7 @@ impl Inject {
             Inject::Sys { k, mid } => format!("sys:{k}:{}", if *mid { "mid" } else { "before" }),
             Inject::CallbackPanic { cluster, written } => format!("cbpanic:{cluster}:{}", if *written { "written" } else { "handled" }),
             Inject::RelativeExtraPath => "relextra".into(),
+            Inject::DeepExtraPath => "deepextra".into(),
             Inject::ReadOnlyDir => "rodir".into(),
             Inject::ReadOnlyDirIo { k, decision } => {
                 let inner = Inject::Io { k: *k, decision: *decision }.encode();
@@ -274,6 +297,7 @@ impl Inject {
             "none" => Inject::None,
             "rodir" => Inject::ReadOnlyDir,
             "relextra" => Inject::RelativeExtraPath,
+            "deepextra" => Inject::DeepExtraPath,
             "cbpanic" => Inject::CallbackPanic { cluster: p[1].parse().ok()?, written: p[2] == "written" },
             "sys" => Inject::Sys { k: p[1].parse().ok()?, mid: p[2] == "mid" },
             "fsizefrom" => Inject::FsizeFrom { k: p[1].parse().ok()?, limit: p[2].parse().ok()?, ignore_signal: p[3] == "efbig" },
@@ -310,6 +334,7 @@ impl Inject {
             Inject::CallbackPanic { written: false, .. } => "application-callback-panics-in-a-worker-or-writer (cluster handled)",
             Inject::CallbackPanic { written: true, .. } => "application-callback-panics-in-the-writer (cluster written)",
             Inject::RelativeExtraPath => "extra-pack-named-relative-to-another-working-directory",
+            Inject::DeepExtraPath => "extra-pack-location-longer-than-a-pack-description-holds",
             Inject::ReadOnlyDir => "destination-directory-not-writable",
             Inject::ReadOnlyDirIo { .. } => "destination-directory-not-writable+io-fault",
             Inject::Io { decision, .. } => match decision {
@@ -419,6 +444,7 @@ pub fn child_main(args: &Args) -> ! {
             }
             opts.progress = std::sync::Arc::new(Bomb { cluster: *cluster, written: *written, fired: case_dir.join("fired.txt") });
         }
+        Inject::DeepExtraPath => hooks.set_plan(Some(IoPlan::Record)),
         Inject::RelativeExtraPath => {
             hooks.set_plan(Some(IoPlan::Record));
             std::env::set_current_dir(case_dir.parent().unwrap()).unwrap_or_else(|e| simcore::harness_error(&format!("C09: chdir: {e}")));
@@ -477,6 +503,7 @@ pub fn child_main(args: &Args) -> ! {
     crate::hooks::set_fired_file(Some(case_dir.join("fired.txt")));
     let mut logical = logical;
     logical.opts.extra_pack_paths_relative_to_cwd = inject == Inject::RelativeExtraPath;
+    logical.opts.extra_packs_in_long_subdir = inject == Inject::DeepExtraPath;
     let r = gen::build(&logical, &case_dir, NAME, &opts);
     // normal return path: write the op log and what fired
     let st = hooks.st.lock().unwrap();
@@ -688,6 +715,7 @@ fn injections(s: &Scenario, r: &Reference, tier: Tier) -> Vec<Inject> {
     }
     if s.extra {
         out.push(Inject::RelativeExtraPath);
+        out.push(Inject::DeepExtraPath);
     }
     for (k, (kind, _file, len)) in r.ops.iter().enumerate() {
         let k = k as u64;
@@ -1004,7 +1032,12 @@ pub fn worker_main(args: &Args, w: usize, n: usize) -> ! {
                 if s.id.contains("hardlinked") {
                     let _ = std::fs::hard_link(case_dir.join(format!("{NAME}.jbk")), case_dir.join(format!("{NAME}.jbk.other-name")));
                 }
-                if s.id.contains("symlinked") {
+                if s.id.contains("symlinked-elsewhere") {
+                    let _ = std::fs::create_dir_all(case_dir.join("store"));
+                    let stored = case_dir.join("store").join(format!("v1-{NAME}.jbk"));
+                    let _ = std::fs::rename(case_dir.join(format!("{NAME}.jbk")), &stored);
+                    let _ = std::os::unix::fs::symlink(format!("store/v1-{NAME}.jbk"), case_dir.join(format!("{NAME}.jbk")));
+                } else if s.id.contains("symlinked") {
                     let stored = case_dir.join(format!("stored-{NAME}.jbk"));
                     let _ = std::fs::rename(case_dir.join(format!("{NAME}.jbk")), &stored);
                     let _ = std::os::unix::fs::symlink(format!("stored-{NAME}.jbk"), case_dir.join(format!("{NAME}.jbk")));
@@ -1033,7 +1066,7 @@ pub fn worker_main(args: &Args, w: usize, n: usize) -> ! {
                 Inject::FsizeFrom { .. } => true,
                 Inject::Sys { .. } => status == "died",
                 Inject::CallbackPanic { .. } => fired.is_some(),
-                Inject::RelativeExtraPath => true,
+                Inject::RelativeExtraPath | Inject::DeepExtraPath => true,
                 Inject::ReadOnlyDir => status != "ok",
                 // fired = the armed operation was reached although the directory is not writable
                 Inject::ReadOnlyDirIo { .. } => fired.is_some(),
@@ -1229,7 +1262,12 @@ pub fn replay_main(args: &Args, file: &str) -> ! {
         if s.id.contains("hardlinked") {
             let _ = std::fs::hard_link(case_dir.join(format!("{NAME}.jbk")), case_dir.join(format!("{NAME}.jbk.other-name")));
         }
-        if s.id.contains("symlinked") {
+        if s.id.contains("symlinked-elsewhere") {
+            let _ = std::fs::create_dir_all(case_dir.join("store"));
+            let stored = case_dir.join("store").join(format!("v1-{NAME}.jbk"));
+            let _ = std::fs::rename(case_dir.join(format!("{NAME}.jbk")), &stored);
+            let _ = std::os::unix::fs::symlink(format!("store/v1-{NAME}.jbk"), case_dir.join(format!("{NAME}.jbk")));
+        } else if s.id.contains("symlinked") {
             let stored = case_dir.join(format!("stored-{NAME}.jbk"));
             let _ = std::fs::rename(case_dir.join(format!("{NAME}.jbk")), &stored);
             let _ = std::os::unix::fs::symlink(format!("stored-{NAME}.jbk"), case_dir.join(format!("{NAME}.jbk")));
